@@ -188,7 +188,7 @@ def main(argv=None):
     # replay files for unlisted violations
     replay_paths = {}
     if unlisted:
-        rdir = os.path.join(VERIF, "replays", prop)
+        rdir = os.path.join(os.environ.get("VERIF_REPLAY_DIR") or os.path.join(VERIF, "replays"), prop)
         os.makedirs(rdir, exist_ok=True)
         seen = {}
         for v in agg["violations"]:
